@@ -24,13 +24,26 @@ pub fn board_of(p: &Pos) -> Bitboard {
 
 /// leaf values for the reference: the engine's own static evaluation through the hook
 pub fn eval_hook(p: &Pos, has_legal: bool) -> i32 {
+    // memo per thread: the engine's evaluation is a function of exactly these inputs
+    // (placement, side, rights, e.p., both clocks, has-legal-move), all part of the memo key
+    thread_local! {
+        static MEMO: std::cell::RefCell<HashMap<(Key, u64, u64, bool), i32>> = std::cell::RefCell::new(HashMap::new());
+    }
+    let k = (p.key(), p.half, p.full, has_legal);
+    if let Some(v) = MEMO.with(|m| m.borrow().get(&k).copied()) {
+        return v;
+    }
     let b = board_of(p);
     let v = if has_legal { verif::static_eval(&b) } else { verif::terminal_eval(&b) };
-    if p.stm == WHITE {
-        v
-    } else {
-        -v
-    }
+    let v = if p.stm == WHITE { v } else { -v };
+    MEMO.with(|m| {
+        let mut m = m.borrow_mut();
+        if m.len() > 2_000_000 {
+            m.clear();
+        }
+        m.insert(k, v);
+    });
+    v
 }
 
 #[derive(Debug, Clone, Default)]
@@ -223,7 +236,7 @@ pub fn run_c08(tier: Tier) -> i32 {
     // (1) fresh engine per position, depths 1..3 in sequence on that engine
     let t0 = Instant::now();
     let idx: Vec<usize> = (0..positions.len()).collect();
-    par_map(&idx, |&i| {
+    par_map_fine(&idx, |&i| {
         let p = &positions[i];
         let heavy = p.piece_count() > 16;
         let mut sess = Session::new(false);
@@ -252,7 +265,7 @@ pub fn run_c08(tier: Tier) -> i32 {
     let t0 = Instant::now();
     let pool: Vec<Pos> = positions.iter().step_by((positions.len() / 12).max(1)).take(12).cloned().collect();
     let pairs: Vec<(usize, usize)> = (0..pool.len()).flat_map(|a| (0..pool.len()).map(move |b| (a, b))).collect();
-    par_map(&pairs, |&(a, b)| {
+    par_map_fine(&pairs, |&(a, b)| {
         let mut sess = Session::new(false);
         let _ = search_depth(&mut sess, &pool[a], &[], 3, "");
         for d in [2usize, 3] {
@@ -266,7 +279,7 @@ pub fn run_c08(tier: Tier) -> i32 {
     let t0 = Instant::now();
     let bell: Vec<Pos> = positions.iter().step_by(if tier == Tier::Quick { 60 } else { 10 }).cloned().collect();
     let bell_n = AtomicU64::new(0);
-    par_map(&bell, |p| {
+    par_map_fine(&bell, |p| {
         for d in [2usize, 3] {
             let mut sess = Session::new(false);
             let parent = search_depth(&mut sess, p, &[], d, "");
@@ -319,7 +332,7 @@ pub fn run_c08(tier: Tier) -> i32 {
         let step = if tier == Tier::Quick { 97 } else { 7 };
         let chosen: Vec<(Pos, i8)> = wins.iter().step_by(step).cloned().collect();
         let by_n: Vec<usize> = (1..=max_n).map(|n| wins.iter().filter(|(_, k)| *k == n).count()).collect();
-        par_map(&chosen, |(p, n)| {
+        par_map_fine(&chosen, |(p, n)| {
             let depth = (2 * *n - 1) as usize;
             let mut sess = Session::new(false);
             let out = search_depth(&mut sess, p, &[], depth, "");
@@ -436,7 +449,7 @@ pub fn run_c11(tier: Tier) -> i32 {
     let t0 = Instant::now();
     let terms = terminals.into_inner().unwrap();
     let term_n = AtomicU64::new(0);
-    par_map(&terms, |p| {
+    par_map_fine(&terms, |p| {
         let mate = p.in_check(p.stm);
         let mut prev: Option<i32> = None;
         for full in [1u64, 2, 50, 1000, 2400] {
@@ -481,7 +494,7 @@ pub fn run_c11(tier: Tier) -> i32 {
         sp.push(Pos::from_fen(f).unwrap());
     }
     let searches = AtomicU64::new(0);
-    par_map(&sp, |p| {
+    par_map_fine(&sp, |p| {
         let f = p.flip();
         let mut s1 = Session::new(false);
         let mut s2 = Session::new(false);
@@ -554,7 +567,7 @@ pub fn run_c10(tier: Tier) -> i32 {
     let unit_n = AtomicU64::new(0);
     let max_len = if tier == Tier::Quick { 11 } else { 13 };
     let firsts: Vec<u64> = (0..9).collect();
-    par_map(&firsts, |&first| {
+    par_map_fine(&firsts, |&first| {
         // sequences over per-parity alphabets {1,2,3} (even plies) and {11,12,13} (odd plies)
         let mut seq: Vec<u64> = vec![1 + first / 3, 11 + first % 3];
         fn rec(rep: &Reporter, seq: &mut Vec<u64>, max_len: usize, n: &AtomicU64) {
@@ -638,7 +651,7 @@ pub fn run_c10(tier: Tier) -> i32 {
     let queries = AtomicU64::new(0);
     let threefold_queries = AtomicU64::new(0);
     let skipped_root_threefold = AtomicU64::new(0);
-    par_map(&jobs, |(base, hist)| {
+    par_map_fine(&jobs, |(base, hist)| {
         // positions along the game
         let mut line: Vec<Pos> = vec![base.clone()];
         for m in hist {
@@ -709,7 +722,7 @@ pub fn run_c10(tier: Tier) -> i32 {
     let fifty_roots = ["8/8/8/4k3/8/8/3Q4/4K3 w - - 0 80", "8/8/8/4k3/8/8/3Q4/4K3 b - - 0 80", "8/8/8/4k3/8/8/3R4/4K3 w - - 0 80", "8/8/4k3/8/8/3P4/8/4K3 w - - 0 80", "8/8/4k3/8/8/3P4/8/4K3 b - - 0 80", "4k3/3q4/8/8/4K3/8/8/8 b - - 0 80", "4k3/3r4/8/8/4K3/8/8/8 w - - 0 80", "r3k3/8/8/8/8/8/4P3/4K2R w K - 0 80"];
     let fifty_jobs: Vec<(Pos, u64)> = fifty_roots.iter().flat_map(|f| (0..=150u64).map(move |h| (Pos::from_fen(f).unwrap(), h))).collect();
     let fifty_n = AtomicU64::new(0);
-    par_map(&fifty_jobs, |(base, h)| {
+    par_map_fine(&fifty_jobs, |(base, h)| {
         let mut p = base.clone();
         p.half = *h;
         let mut sess = Session::new(false);
